@@ -26,7 +26,7 @@ macro_rules! tf {
     for m in 0..256u64 {
       cases.push((2, ranges_of_mask(m, 8, cell_size::<T, $Q<T>>(2))));
     }
-    for _ in 0..(if $thorough { 3000 } else { 300 }) {
+    for _ in 0..(if $thorough { 12000 } else { 300 }) {
       cases.push((3, ranges_of_mask($rng.below(1 << 16), 16, cell_size::<T, $Q<T>>(3))));
       let d = $rng.below(max_depth as u64 + 1) as u8;
       cases.push((d, random_moc_ranges::<T, $Q<T>>($rng, d, 6)));
@@ -99,7 +99,7 @@ fn components(depth: u8, s: &BTreeSet<u64>, with_vertices: bool) -> Vec<BTreeSet
 }
 
 fn space(sink: &mut Sink, rng: &mut Rng, thorough: bool) {
-  let n = if thorough { 4000 } else { 600 };
+  let n = if thorough { 20000 } else { 600 };
   for i in 0..n {
     let depth = ((i / 10 + i) % 3) as u8; // depths 0, 1, 2: 12 / 48 / 192 cells
     let ncell = 12u64 << (2 * depth);
